@@ -45,7 +45,7 @@ def gen_plan(run_seed, fault_mode='none'):
     tail = wl.random()
     if tail < 0.5:
         ops.append(['join'])
-    ops.append(['exit', wl.choice(['none', 'exc'])])
+    ops.append(['exit', wl.choice(['none', 'exc', 'kbd'])])
     if wl.random() < 0.3:
         ops.append(['enter_again'])
     if wl.random() < 0.3:
@@ -146,7 +146,9 @@ def execute(plan, scratch_root=None, decisions=None, jitters=None):
                     elif kind == 'alive':
                         out = 'ok'
                     elif kind == 'exit':
-                        if op[1] == 'exc':
+                        if op[1] == 'kbd':  # the with-block is left by a KeyboardInterrupt (not an Exception subclass)
+                            w.__exit__(KeyboardInterrupt, KeyboardInterrupt('user abort'), None)
+                        elif op[1] == 'exc':
                             w.__exit__(RuntimeError, RuntimeError('user error'), None)
                         else:
                             w.__exit__(None, None, None)
